@@ -461,6 +461,18 @@ func runOwnership(e *ev.Env) {
 	e.Cases("timeout", e.N(200, 20000), func(c *ev.Case) {
 		timeoutPrecedence(e, c)
 	})
+	e.Corpus("config-body-with-timeout", func(c *ev.Case) {
+		cfgCombo(e, c, &cfgCase{Payload: "body", Entry: "client.Method", Method: "POST", DelayMs: 100, TimeoutMs: 30, Tag: "t"})
+	})
+	e.Corpus("config-formdata-with-max-redirects", func(c *ev.Case) {
+		cfgCombo(e, c, &cfgCase{Payload: "formdata", Entry: "package.Method", Method: "GET", DelayMs: 20, MaxRedirects: 2, Hops: 2, Tag: "t"})
+	})
+	e.Corpus("config-file-over-redirect-limit", func(c *ev.Case) {
+		cfgCombo(e, c, &cfgCase{Payload: "file", Entry: "client.Custom", Method: "GET", DelayMs: 20, MaxRedirects: 1, Hops: 2, Tag: "t"})
+	})
+	e.Cases("config", e.N(600, 60000), func(c *ev.Case) {
+		cfgCombo(e, c, nil)
+	})
 }
 
 // exploreOwn enumerates the schedules of a scenario with sched.DFS (bounded) and, when the bound
